@@ -202,6 +202,9 @@ func (fc *funcContext) translateExpr(expr ast.Expr) *expression {
 
 	case *ast.FuncLit:
 		fun := fc.literalFuncContext(e).translateFunctionBody(e.Type, nil, e.Body)
+		// The body of the literal ends with an "unmapped from here" hint. Whatever the enclosing statement
+		// emits after the literal belongs to that statement again.
+		fun += fc.posHint(fc.pos)
 		if len(fc.pkgCtx.escapingVars) != 0 {
 			names := make([]string, 0, len(fc.pkgCtx.escapingVars))
 			for obj := range fc.pkgCtx.escapingVars {
